@@ -126,6 +126,12 @@ class ExprMixin:
         return out
 
     def ev_JoinedStr(self, node, st):
+        if getattr(self, "str_shape", None) == "range" and len(node.values) == 3 and isinstance(node.values[1], ast.Constant) \
+                and node.values[1].value == "-" and all(isinstance(node.values[i], ast.FormattedValue) for i in (0, 2)):
+            a, b = self.ev(node.values[0].value, st), self.ev(node.values[2].value, st)
+            if type_of(a) is TInt and type_of(b) is TInt:
+                from .values import RNGSTR
+                return SV(TStr, RNGSTR(to_term(a), to_term(b)))     # the text "a-b" as a shaped string
         parts = []
         for p in node.values:
             if isinstance(p, ast.Constant):
@@ -477,10 +483,19 @@ class ExprMixin:
         c = self.ev_truth(node.test, st)
         if isinstance(c, bool):
             return self.ev(node.body if c else node.orelse, st)
+        nt, nf = self.narrowing(node.test, st) if hasattr(self, "narrowing") else ({}, {})
+
+        def branch(expr, narrowed):
+            saved = {k: st.env[k] for k in narrowed if k in st.env}
+            st.env.update(narrowed)
+            try:
+                return self.ev(expr, st)
+            finally:
+                st.env.update(saved)
         n0 = len(self.pending)
-        a = self.with_guard(c, lambda: self.ev(node.body, st), n0)
+        a = self.with_guard(c, lambda: branch(node.body, nt), n0)
         n1 = len(self.pending)
-        b = self.with_guard(z3.Not(c), lambda: self.ev(node.orelse, st), n1)
+        b = self.with_guard(z3.Not(c), lambda: branch(node.orelse, nf), n1)
         return self.ite(c, a, b)
 
     def ev_Compare(self, node, st):
